@@ -106,8 +106,13 @@ class DechunkedInput(io.RawIOBase):
 
     def read_chunk_len(self) -> int:
         try:
-            line = self._rfile.readline().decode("latin1")
-            _len = int(line.strip(), 16)
+            line = self._rfile.readline().decode("latin1").strip(" \t\r\n")
+
+            if line.strip("0123456789abcdefABCDEF"):
+                # int() would also accept "0x", "+", "_" and Unicode spaces
+                raise ValueError(line)
+
+            _len = int(line, 16)
         except ValueError as e:
             raise OSError("Invalid chunk header") from e
         if _len < 0:
